@@ -83,7 +83,19 @@ def make_case(cfg, X, chunks=None, rtol=2.0 ** -20):
     scale = max(1.0, float(np.abs(X).max()))
     atol = 1e-9 * scale * scale
     term = case_term(cfg, m0, prior, X, chunks, m, steps, lls[-1] if lls else 0.0, rtol, atol)
-    return {"term": term, "m0": m0, "m1": m, "steps": steps, "lls": lls, "cvs": cvs, "prior": prior}
+    return {"term": term, "m0": m0, "m1": m, "steps": steps, "lls": lls, "cvs": cvs, "prior": prior,
+            "well_conditioned": well_conditioned(m, X) and well_conditioned(m0, X)}
+
+
+def well_conditioned(m, X):
+    """False when some variance has collapsed to the level of the cancellation noise of sum_pxx/n - mean^2
+    (a component sitting on one or two points): the trained values are then dominated by binary64 rounding, and
+    comparing two differently ordered float evaluations (NumPy vs the model) is meaningless.  Such cases are
+    excluded from the CORRESPONDENCE only; the property oracles still run on them."""
+    var = np.asarray(m.variances, dtype=float)
+    mu = np.asarray(m.means, dtype=float)
+    scale2 = float(np.var(X, axis=0).max()) + 1e-300
+    return bool(np.all(var > 1e-7 * (mu * mu + scale2)))
 
 
 def gen_training(r, C=None, D=None, N=None, scale=None, degenerate=False):
